@@ -5,7 +5,7 @@
     [mkVar EqFull FsReset dm] (any in-batch duplicate rule dm) is the repaired variant,
     [mkVar EqLen FsKeep DupStoredAndLocal] the pinned tree. *)
 From Coq Require Import List ZArith NArith Bool Arith Lia.
-From DH Require Import Model.Pipeline Proofs.PipelineProofs Check.C08Check Proofs.C08CheckProofs.
+From DH Require Import Model.Pipeline Proofs.PipelineProofs Proofs.PipelineProofs2 Check.C08Check Proofs.C08CheckProofs.
 Import ListNotations.
 
 (** Token safety.  For every number of member datasets [n], every ownership of entity ids by
@@ -113,17 +113,78 @@ Theorem C08_token_safe_refuted_fullsync :
 Proof. exact refuted_fskeep. Qed.
 Print Assumptions C08_token_safe_refuted_fullsync.
 
+(** Every run that ends OK - incremental or fullsync, with whatever fault armed (it did not
+    fire) - has every token at the end and sink = source on every source entity; a fullsync has
+    also deleted the entities no source member contains. *)
+Theorem C08_ok_run_converged : forall owner n fs dm st r st',
+  good owner n st -> wf_op owner n (ORun r) -> run_job (mkVar EqFull fs dm) st r = (st', OOk) ->
+  converged st' /\ good owner n st' /\ (r_full r = true -> foreign_deleted st').
+Proof. intros owner n fs dm. exact (run_ok_converged owner n (mkVar EqFull fs dm) eq_refl). Qed.
+Print Assumptions C08_ok_run_converged.
+
+(** A fault-free fullsync with no concurrent source writes ends OK, from ANY sink content and
+    ANY persisted token, and then everything of C08_fullsync_complete holds. *)
+Theorem C08_fullsync_converge : forall owner n fs dm st r,
+  length (st_srcs st) = n -> length (st_tok st) = n -> owned owner (st_srcs st) ->
+  wf_op owner n (ORun r) -> r_full r = true -> r_flt r = FNone ->
+  exists st', run_job (mkVar EqFull fs dm) st r = (st', OOk)
+              /\ st_srcs st' = st_srcs st /\ converged st' /\ foreign_deleted st' /\ good owner n st'.
+Proof.
+  intros owner n fs dm st r Hn Hnt Hown Hwf Hfull Hflt.
+  destruct (run_full_nofault owner n (mkVar EqFull fs dm) eq_refl st r Hn Hown Hwf Hfull Hflt) as (st' & H).
+  exists st'. split; [exact H|].
+  exact (run_full_ok owner n (mkVar EqFull fs dm) eq_refl st r st' Hn Hnt Hown Hwf Hfull H).
+Qed.
+Print Assumptions C08_fullsync_converge.
+
+(** Idempotence with a fault armed: with every token at the end, an incremental run leaves the
+    persisted state exactly as it was, whatever its fault and outcome (any variant). *)
+Theorem C08_idempotent_any_fault : forall owner n v st r,
+  converged st -> length (st_srcs st) = n -> wf_op owner n (ORun r) -> r_full r = false ->
+  exists o, run_job v st r = (st, o).
+Proof.
+  intros owner n v st r [Hl Hc] Hn Hwf Hfull. apply (run_idem_any owner n); auto.
+  split; [assumption|]. intros k Hk. apply Hc. assumption.
+Qed.
+Print Assumptions C08_idempotent_any_fault.
+
+(** A job only copies: along every well-formed history the sink's version of an entity owned by
+    a source member is a version of that member's feed (so a failed fullsync deletes nothing). *)
+Theorem C08_sink_only_copies_step : forall owner n fs dm st o st' out,
+  good owner n st -> orig owner (st_srcs st) (st_sink st) -> wf_op owner n o ->
+  step (mkVar EqFull fs dm) st o = (st', out) -> orig owner (st_srcs st') (st_sink st').
+Proof. intros owner n fs dm. exact (step_orig owner n (mkVar EqFull fs dm) eq_refl). Qed.
+Print Assumptions C08_sink_only_copies_step.
+
+(** Exact characterisation of the pinned fullsync-token behaviour (FsKeep): after a fullsync
+    that did not complete, source feeds and token are unchanged, and the state is token-safe
+    IFF the sink still has the source's latest version of every entity the token has passed;
+    whatever it has instead is a version of that source's feed, i.e. a historical one the
+    fullsync re-wrote.  (With [C08_token_safe_keep_partial]: the pinned tree is unsafe exactly
+    after such a fullsync.) *)
+Theorem C08_keep_failed_fullsync_char : forall owner n dm st r st' o,
+  good owner n st -> orig owner (st_srcs st) (st_sink st) -> wf_op owner n (ORun r) ->
+  r_full r = true -> run_job (mkVar EqFull FsKeep dm) st r = (st', o) -> o <> OOk ->
+  st_srcs st' = st_srcs st /\ st_tok st' = st_tok st
+  /\ (token_safe st' <->
+      forall k i, k < length (st_srcs st) -> In i (ids (nth k (st_srcs st) [])) ->
+                  ~ pending (nth k (st_srcs st) []) (asincr (nth k (st_tok st) None)) i ->
+                  cur (st_sink st') i = cur (nth k (st_srcs st) []) i)
+  /\ (forall k i w, k < length (st_srcs st) -> In i (ids (nth k (st_srcs st) [])) ->
+                    cur (st_sink st') i = Some w -> In w (nth k (st_srcs st) [])).
+Proof.
+  intros owner n dm st r st' o. exact (keep_failed_full_char owner n (mkVar EqFull FsKeep dm) st r st' o eq_refl eq_refl).
+Qed.
+Print Assumptions C08_keep_failed_fullsync_char.
+
 (** tie to the correspondence check: on a well-formed case, agreement of the implementation
-    with the repaired model implies the token-safety part of the executable spec, evaluated on
-    the implementation's own observations, after every run of the case.
-    PARTIAL: the full statement [wf_case c -> agree v_fixed c = true -> spec_ok c = true] is not
-    proved; gaps: convergence after an incremental run that ends OK with an armed fault that
-    never fired, and the sink-feed-length part of the idempotence check (see
-    Proofs/C08CheckProofs.v). *)
-Theorem C08_agree_implies_spec_partial : forall c,
-  wf_case c -> agree v_fixed c = true -> spec_safe c = true.
-Proof. exact agree_fixed_spec_partial. Qed.
-Print Assumptions C08_agree_implies_spec_partial.
+    with the repaired model implies the WHOLE executable spec (token safety after every run,
+    convergence after every run that ends OK, incremental re-run changes nothing, the sink only
+    holds versions of its sources) evaluated on the implementation's own observations. *)
+Theorem C08_agree_implies_spec : forall c,
+  wf_case c -> agree v_fixed c = true -> spec_ok c = true.
+Proof. exact agree_fixed_spec. Qed.
+Print Assumptions C08_agree_implies_spec.
 
 (** non-vacuity: concrete non-trivial instances meeting the hypotheses *)
 Definition h_demo : list op :=
@@ -154,3 +215,31 @@ Example C08_nonvacuous_2 :
   cur (st_sink st) 1%Z = Some (mkV 1 3 0 false) /\ cur (st_sink st) 12%Z = Some (mkV 12 1 0 true)
   /\ cur (st_sink st) 100%Z = Some (mkV 100 1 1 true).
 Proof. vm_compute. auto. Qed.
+
+(** the hypotheses of C08_agree_implies_spec are met by a concrete case *)
+Definition c_demo : tcase :=
+  mkTC 1 false [false] 1
+    [ TW 0 [mkV 1 1 0 false; mkV 1 2 0 false];
+      TRun (mkTR false (FDieBefore 0) 2%N [(-1)%Z] [mkV 1 1 0 false] 1 [2%Z]);
+      TRun (mkTR false FNone 0%N [2%Z] [mkV 1 2 0 false] 2 [2%Z]);
+      TRun (mkTR false (FDieAfter 0) 2%N [2%Z] [mkV 1 2 0 false] 2 [2%Z]) ]
+    [[mkV 1 1 0 false; mkV 1 2 0 false]].
+Example C08_nonvacuous_3 : wf_case c_demo /\ agree v_fixed c_demo = true /\ spec_ok c_demo = true.
+Proof.
+  split; [|split; vm_compute; reflexivity].
+  exists (fun _ => 0). unfold c_demo. cbn. repeat constructor; cbn; try lia; try discriminate;
+    intros x Hx; repeat (destruct Hx as [<-|Hx]; [reflexivity|]); destruct Hx.
+Qed.
+(** ... and those of C08_keep_failed_fullsync_char by the state reached in h_fskeep before its
+    failed fullsync (the characterisation then says: unsafe, entity 1 is behind) *)
+Example C08_nonvacuous_4 :
+  let st := final (mkVar EqFull FsKeep DupStoredAndLocal) (init_state 1) (firstn 3 h_fskeep) in
+  good own0 1 st /\ orig own0 (st_srcs st) (st_sink st).
+Proof.
+  cbn zeta. set (st := final _ _ _). vm_compute in st. subst st. split.
+  - split; [reflexivity|]. split.
+    + intros k x Hx. destruct k as [|k]; [reflexivity|]. cbn in Hx. destruct k; destruct Hx.
+    + split; [reflexivity|]. intros k Hk. cbn in Hk. assert (k = 0) by lia. subst k.
+      split; [cbn; lia|]. intros i Hi. right. reflexivity.
+  - intros i w Hc _. apply cur_some in Hc. destruct Hc as [_ Hin]. exact Hin.
+Qed.
